@@ -373,14 +373,15 @@ pub fn precise_diff<'py>(
                     day_diff += days_in_last_month;
                 }
             }
-            Ordering::Equal => {
-                // We have exactly a full month
+            Ordering::Equal if dtinfo1.day == days_in_last_month => {
+                // We have exactly a full month: the last day of a month
+                // up to the last day of a shorter one, same time or later.
                 // We remove the days difference
                 // and add one to the months difference
                 day_diff = 0;
                 month_diff += 1;
             }
-            Ordering::Greater => {
+            _ => {
                 // We have a full month
                 day_diff += days_in_last_month;
             }
